@@ -489,6 +489,16 @@ ExtExpireAll ==
   /\ act' = [p |-> "", name |-> "ExtExpireAll", out |-> "", arg |-> 0]
   /\ UNCHANGED <<now, stored, writes, bsrc>>
 
+(* Another writer (a second frontend on the same backend, a direct Write)   *)
+(* stores a fresh value under the key.                                      *)
+ExtWrite(k) ==
+  /\ EnvFrame /\ EnvOps
+  /\ Len(writes) < 6
+  /\ LET v == k \o "#x" \o ToString(Len(writes) + 1) IN
+     /\ BeWrite(k, v, 0, "ext")
+     /\ act' = [p |-> "", name |-> "ExtWrite", out |-> v, arg |-> 0]
+  /\ UNCHANGED now
+
 ExtDelete(k) ==
   /\ EnvFrame /\ EnvOps /\ be[k] # None
   /\ be' = [be EXCEPT ![k] = None]
@@ -505,7 +515,7 @@ ProcNext(p) ==
 
 Next ==
   \/ \E p \in Procs : ProcNext(p) /\ UNCHANGED now
-  \/ Tick \/ ExtExpireAll \/ \E k \in Keys : ExtDelete(k)
+  \/ Tick \/ ExtExpireAll \/ \E k \in Keys : ExtDelete(k) \/ ExtWrite(k)
 
 vars == <<now, be, errs, locks, lrec, nlock, pc, loc, res, building, nb, produced, berrs, stored, writes, bsrc, met, gh,
           faults, fails, running, act>>
